@@ -8,7 +8,7 @@ VERIF = os.path.dirname(os.path.dirname(os.path.abspath(__file__)))
 VERUS_UNITS = {
     "decoder": {
         "path": "units/verus/decoder.vx",
-        "props": ["C01", "C02", "C04", "C05", "C11", "C20"],
+        "props": ["C01", "C02", "C04", "C05", "C11", "C12", "C20"],
         "configs": {"quick": [("std", ["std", "alloc", "half"])],
                     "thorough": [("std", ["std", "alloc", "half"]), ("alloc", ["alloc", "half"]), ("none", ["half"])]},
         # only C20 needs every configuration; other properties use the first one
@@ -70,6 +70,24 @@ KANI_UNITS = {
             {"append": ("minicbor/src/lib.rs", "#[cfg(kani)] mod kani_int_matrix;")},
         ],
         "module": "kani_int_matrix",
+    },
+    "floats": {
+        "crate": "minicbor",
+        "src": "units/kani/minicbor/floats.rs",
+        "inject": [
+            {"copy": ("units/kani/minicbor/floats.rs", "minicbor/src/kani_floats.rs")},
+            {"append": ("minicbor/src/lib.rs", "#[cfg(kani)] mod kani_floats;")},
+        ],
+        "module": "kani_floats",
+    },
+    "tokens": {
+        "crate": "minicbor",
+        "src": "units/kani/minicbor/tokens.rs",
+        "inject": [
+            {"copy": ("units/kani/minicbor/tokens.rs", "minicbor/src/kani_tokens.rs")},
+            {"append": ("minicbor/src/lib.rs", "#[cfg(kani)] mod kani_tokens;")},
+        ],
+        "module": "kani_tokens",
     },
     "roundtrip": {
         "crate": "minicbor",
